@@ -16,6 +16,7 @@ func init() {
 		e.RFragOrder()
 		e.RNewlineScan()
 		e.RBlankLine()
+		e.RPackageCommentGap()
 		e.RCommentLines()
 	})
 	register("C04", Meta{
